@@ -149,6 +149,8 @@ namespace View
 def arrMarshalLoop (pj : PJ) (i : Iter) (dst : Bytes) : (fuel : Nat) → Res (Iter × Bytes)
   | 0 => .diverge
   | fuel + 1 => do
+    let nt0 ← i.peekNextTag pj
+    if nt0 == tagArrayEnd then .ok (i, dst) else do
     let (i, elem, t) ← i.advanceIter pj default
     if t == typeNone then .ok (i, dst) else do
     let dst ← elem.marshalBuf pj dst
